@@ -53,7 +53,9 @@ override = ExitOverrider()
 
 def maybe(fn):
     def maybe_():
-        if (override.exitcode is None or override.exitcode == 0) and override.exception is None:
+        # the process exits with status 0 only for None and the integer 0 (0.0 == 0 but exits with status 1)
+        exit_ok = override.exitcode is None or (isinstance(override.exitcode, int) and override.exitcode == 0)
+        if exit_ok and override.exception is None:
             fn()
         else:
             print("*** Script returned with error, skipping proof generation", file=sys.stderr)
